@@ -1,7 +1,7 @@
 (* Judges.v — boolean versions of the statements that the checks apply to the
    IMPLEMENTATION's own observations (extracted and run by modelrun `JUDGE …`), each
    proved equivalent to the Prop used in the theorems (Proofs/JudgeProofs.v). *)
-From PL Require Export Spec.Hist.
+From PL Require Export Spec.Hist Spec.StatsSpec.
 Local Open Scope N_scope.
 
 (* C01: the three reported aggregates describe the listed orders *)
@@ -37,3 +37,131 @@ Definition accounting_b (p qty : N) (taker : oid) (before : list order) (r : res
   (sum_qty (r_txs r) + r_remaining r =? qty) &&
   Bool.eqb (r_complete r) (r_remaining r =? 0) &&
   forallb (tx_ok_b p taker before) (r_txs r).
+
+(* ------------------------------------------------------------------ *)
+(* C06 (per match call): at least min(requested, displayed at the start) is executed, and a
+   call that returns with quantity remaining leaves no resting order with displayed quantity.
+   [before] / [after] are listings of the book around the call (any order of the rows). *)
+Definition Exhausts (qty : N) (before after : list order) (executed remaining : N) : Prop :=
+  N.min qty (sumv before) <= executed /\
+  (0 < remaining -> forall o, In o after -> vis o = 0).
+
+Definition exhaust_b (qty : N) (before after : list order) (executed remaining : N) : bool :=
+  (N.min qty (sumv before) <=? executed) &&
+  ((remaining =? 0) || forallb (fun o => vis o =? 0) after).
+
+(* ------------------------------------------------------------------ *)
+(* C15 (per history): the four statistics counters are the counts / sums over the events of
+   the history (modulo 2^64: they are wrapping counters), every transaction carries the level
+   price; the value is summed from the transactions' own price and quantity. *)
+Definition sum_txval (txs : list tx) : N := fold_right (fun t a => tx_qty t * tx_price t + a) 0 txs.
+Definition ev_val (e : event) : N :=
+  match e with (OMatch _ _, OutMatch r) => sum_txval (r_txs r) | _ => 0 end.
+Definition val_executed (h : hist) : N := fold_right (fun e a => ev_val e + a) 0 h.
+
+Definition ev_tx_price_b (p : N) (e : event) : bool :=
+  match e with (_, OutMatch r) => forallb (fun t => tx_price t =? p) (r_txs r) | _ => true end.
+
+Definition StatsAgree (p : N) (h : hist) (added removed qty value : N) : Prop :=
+  added = n_added h mod W /\ removed = n_removed p h mod W /\
+  qty = qty_executed h mod W /\ value = val_executed h mod W /\
+  Forall (ev_tx_price p) h.
+
+Definition stats_b (p : N) (h : hist) (added removed qty value : N) : bool :=
+  (added =? n_added h mod W) && (removed =? n_removed p h mod W) &&
+  (qty =? qty_executed h mod W) && (value =? val_executed h mod W) &&
+  forallb (ev_tx_price_b p) h.
+
+(* ------------------------------------------------------------------ *)
+(* C07 (per update call): from the listing before, the update, the returned outcome and the
+   listing after (listings compared as finite maps id -> order, so the order of the rows is
+   irrelevant), plus the three aggregate counters before and after.
+   NOT decided here (left to the python judge / the differential run): queue position
+   (only visible through later matches), "a cancelled order never trades" (a statement about
+   the rest of the history), statistics (C15), purity of read-only calls (metamorphic run). *)
+Definition oo_eqb (a b : option order) : bool := option_eqb order_eqb a b.
+Definition uout_eqb (x y : uout) : bool :=
+  match x, y with
+  | UErr, UErr => true
+  | UOk a, UOk b => oo_eqb a b
+  | _, _ => false
+  end.
+
+Definition upd_key (u : update) : oid :=
+  match u with
+  | UpdatePrice k _ | UpdateQuantity k _ | UpdatePriceAndQuantity k _ _ | Cancel k | Replace k _ _ _ => k
+  end.
+
+(* the dispatch of update_order at a level of price [p] *)
+Inductive upd_class := UReject | UTakeOut | UAmend (nq : N).
+Definition classify (p : N) (u : update) : upd_class :=
+  match u with
+  | Cancel _ => UTakeOut
+  | UpdatePrice _ np => if np =? p then UReject else UTakeOut
+  | UpdateQuantity _ nq => UAmend nq
+  | UpdatePriceAndQuantity _ np nq => if np =? p then UAmend nq else UTakeOut
+  | Replace _ np nq _ => if np =? p then UAmend nq else UTakeOut
+  end.
+
+Definition same_book (a b : list order) : Prop := forall k, lookup k a = lookup k b.
+Definition same_book_except (k : oid) (a b : list order) : Prop :=
+  forall k', k' <> k -> lookup k' a = lookup k' b.
+
+Definition same_book_b (a b : list order) : bool :=
+  forallb (fun k => oo_eqb (lookup k a) (lookup k b)) (ids a ++ ids b).
+Definition same_book_except_b (k : oid) (a b : list order) : bool :=
+  forallb (fun k' => oid_eqb k' k || oo_eqb (lookup k' a) (lookup k' b)) (ids a ++ ids b).
+
+Definition UpdateOk (p : N) (before : list order) (u : update) (r : uout) (after : list order) : Prop :=
+  let k := upd_key u in
+  match classify p u with
+  | UReject => r = UErr /\ same_book after before
+  | UTakeOut =>
+      match lookup k before with
+      | Some o => r = UOk (Some o) /\ lookup k after = None /\ same_book_except k after before
+      | None => r = UOk None /\ same_book after before
+      end
+  | UAmend nq =>
+      match lookup k before with
+      | Some o => r = UOk (Some (with_reduced_quantity o nq)) /\
+                  lookup k after = Some (with_reduced_quantity o nq) /\
+                  same_book_except k after before
+      | None => r = UOk None /\ same_book after before
+      end
+  end.
+
+Definition update_ok_b (p : N) (before : list order) (u : update) (r : uout) (after : list order) : bool :=
+  let k := upd_key u in
+  match classify p u with
+  | UReject => uout_eqb r UErr && same_book_b after before
+  | UTakeOut =>
+      match lookup k before with
+      | Some o => uout_eqb r (UOk (Some o)) && oo_eqb (lookup k after) None && same_book_except_b k after before
+      | None => uout_eqb r (UOk None) && same_book_b after before
+      end
+  | UAmend nq =>
+      match lookup k before with
+      | Some o => uout_eqb r (UOk (Some (with_reduced_quantity o nq))) &&
+                  oo_eqb (lookup k after) (Some (with_reduced_quantity o nq)) &&
+                  same_book_except_b k after before
+      | None => uout_eqb r (UOk None) && same_book_b after before
+      end
+  end.
+
+(* the aggregates (visible, hidden, count) around the call: wrapping subtraction on a removal,
+   [delta] of the displayed quantity on an amendment, untouched otherwise *)
+Definition UpdateCounts (p : N) (before : list order) (u : update) (cv ch cc cv' ch' cc' : N) : Prop :=
+  match classify p u, lookup (upd_key u) before with
+  | UTakeOut, Some o => cv' = wsub cv (vis o) /\ ch' = wsub ch (hid o) /\ cc' = wsub cc 1
+  | UAmend nq, Some o =>
+      cv' = delta cv (vis o) (vis (with_reduced_quantity o nq)) /\ ch' = ch /\ cc' = cc
+  | _, _ => cv' = cv /\ ch' = ch /\ cc' = cc
+  end.
+
+Definition update_counts_b (p : N) (before : list order) (u : update) (cv ch cc cv' ch' cc' : N) : bool :=
+  match classify p u, lookup (upd_key u) before with
+  | UTakeOut, Some o => (cv' =? wsub cv (vis o)) && (ch' =? wsub ch (hid o)) && (cc' =? wsub cc 1)
+  | UAmend nq, Some o =>
+      (cv' =? delta cv (vis o) (vis (with_reduced_quantity o nq))) && (ch' =? ch) && (cc' =? cc)
+  | _, _ => (cv' =? cv) && (ch' =? ch) && (cc' =? cc)
+  end.
